@@ -38,7 +38,7 @@ Consume(Upd(_, _)) ==
   /\ trI <= Len(Trace[trH].ev)
   /\ trP' = trS
   \* a call that panicked carries no result fields: the abstract state is kept, the verdict is "panic"
-  /\ trS' = IF "panic" \in DOMAIN Trace[trH].ev[trI] THEN trS ELSE Upd(trS, Trace[trH].ev[trI])
+  /\ trS' = IF "panic" \in DOMAIN Trace[trH].ev[trI] \/ Trace[trH].ev[trI].op = "ConcurrentReplay" THEN trS ELSE Upd(trS, Trace[trH].ev[trI])
   /\ trI' = trI + 1
   /\ UNCHANGED trH
 
@@ -50,10 +50,18 @@ Finish ==
 
 TNext(Upd(_, _)) == Consume(Upd) \/ Finish
 
+\* Stateless (pure) calls are executed a second time from several goroutines at once; the harness compares each
+\* result with the one recorded sequentially and reports the count.  A pure function of its arguments gives the
+\* same answer whatever else runs at the same time (hidden shared scratch state does not).
+ConcurrentReplayVerdict(e) ==
+  IF e.mismatches = 0 THEN <<>>
+  ELSE <<"result-differs-under-concurrent-use", e.first.sequential, e.first.concurrent>>
+
 \* the event consumed by the step that led to the current state
 Judge(Verdict(_, _, _)) ==
   (trI > 1 /\ trI <= Len(Trace[trH].ev) + 1) =>
-     LET v == Verdict(trP, Trace[trH].ev[trI - 1], trS)
+     LET v == IF Trace[trH].ev[trI - 1].op = "ConcurrentReplay" THEN ConcurrentReplayVerdict(Trace[trH].ev[trI - 1])
+              ELSE Verdict(trP, Trace[trH].ev[trI - 1], trS)
      IN v = <<>> \/ CSVWrite("%1$s", <<ToJson([h |-> Trace[trH].h, i |-> trI - 1, v |-> v])>>, IOEnv.VOUT)
 
 Same(s, e) == s
